@@ -6,16 +6,18 @@
 import Rbgp.Rib.CtrFacts
 import Rbgp.Rib.ObsC15
 import Rbgp.Rib.Run
+import Rbgp.Rib.GoodDef
 namespace Rbgp.Rib
 open SpecC15
 
 /-! ## The histories covered -/
 
 /-- what both codecs guarantee about a stale-path purge that is handed a limit counter: the named
-    source exists, has the purged address and is the only source of the case with that address (so
-    that settling the counter by address is settling it by source) -/
+    source exists, has a prefix limit, has the purged address and is the only source of the case with
+    that address (so that settling the counter by address is settling it by source) -/
 def PurgeArgOk (c : Case) (a : Nat) (ctr : Option Nat) : Prop :=
-  ∀ i, ctr = some i → ∃ s, c.srcs[i]? = some s ∧ s.addr = a ∧ ∀ s' ∈ c.srcs, s'.addr = a → s'.id = i
+  ∀ i, ctr = some i → ∃ s, c.srcs[i]? = some s ∧ s.lim.isSome = true ∧ s.addr = a ∧
+    ∀ s' ∈ c.srcs, s'.addr = a → s'.id = i
 
 def Op.PurgeCtrOk (c : Case) : Op → Prop
   | .dropStale a _ ctr => PurgeArgOk c a ctr
@@ -227,7 +229,8 @@ theorem moved_same {s : Src} {f : Fam} (tg dist : Bool) (h1 : sessCount s.id (t'
   Or.inl ⟨0, 0, by omega, by omega, by omega, by omega, fun _ => ⟨rfl, rfl⟩⟩
 
 theorem count_purge (hinv : Inv c g t) {a : Nat} {f0 : Fam} {ctr : Option Nat} (hpo : PurgeArgOk c a ctr)
-    (hspec : PurgeSpec t t' a f0 ctr) {s : Src} (hw : s.WF c) (f : Fam)
+    {pred : Entry → Bool} (hp : ∀ e, pred e = true → sameAddr a e = true)
+    (hspec : PurgeSpec t t' a f0 ctr pred) {s : Src} (hw : s.WF c) (f : Fam)
     (hge : sessCount s.id (t.rib f) ≤ t.ctr (s.id, f)) (hlt : t.ctr (s.id, f) < HALF) :
     Moved t t' s f (f0 == f && a == s.addr && ctr.isSome) (f0 == f && a == s.addr && ctr.isNone) := by
   obtain ⟨gone, hctrs, hle, hsame, hagree⟩ := hspec
@@ -238,7 +241,7 @@ theorem count_purge (hinv : Inv c g t) {a : Nat} {f0 : Fam} {ctr : Option Nat} (
       rw [hc] at hctrs
       exact Or.inr ⟨by simp, hle s.id f, ctr_of_ctrs_eq hctrs _⟩
     | some i =>
-      obtain ⟨s0, hs0, _, hall⟩ := hpo i hc
+      obtain ⟨s0, hs0, _, _, hall⟩ := hpo i hc
       have hi : s.id = i := hall s (src_mem_of_wf hw) rfl
       subst hi
       have hag := hagree s.id (by
@@ -256,8 +259,12 @@ theorem count_purge (hinv : Inv c g t) {a : Nat} {f0 : Fam} {ctr : Option Nat} (
       apply hsame
       intro hf nd hnd e he hei
       have hew := (((hinv.rib f0).dest nd hnd).srcOk e he).1
-      rw [src_eq_of_id hew hw hei]
-      exact fun ha => htg ⟨ha, hf⟩
+      have hes : e.src = s := src_eq_of_id hew hw hei
+      cases hpe : pred e
+      · rfl
+      · have := hp e hpe
+        simp only [sameAddr, beq_iff_eq, hes] at this
+        exact absurd ⟨this, hf⟩ htg
     refine moved_same _ _ h1 ?_
     cases hc : ctr with
     | none => rw [hc] at hctrs; exact ctr_of_ctrs_eq hctrs _
@@ -267,7 +274,7 @@ theorem count_purge (hinv : Inv c g t) {a : Nat} {f0 : Fam} {ctr : Option Nat} (
         intro e
         obtain ⟨e1, e2⟩ := Prod.mk.inj e
         subst e1
-        obtain ⟨s0, hs0, ha0, _⟩ := hpo s.id hc
+        obtain ⟨s0, hs0, _, ha0, _⟩ := hpo s.id hc
         rw [show c.srcs[s.id]? = some s from hw, Option.some.injEq] at hs0
         subst hs0
         exact htg ⟨ha0, e2⟩
@@ -349,16 +356,74 @@ theorem count_step {op : Op} (hpo : op.PurgeCtrOk c) (hwf : op.WF c g) (hinv : I
       · exact ctr_aset_ne h3 hkk
       · exact ctr_of_ctrs_eq h3 _
   | drop a f0 =>
-    have := count_purge hinv (ctr := none) (fun i h => by cases h) hcf.spec hw f hge hlt
+    have := count_purge hinv (ctr := none) (fun i h => by cases h) (fun _ h => h) hcf.spec hw f hge hlt
     simpa [Op.targets, Op.disturbs] using this
-  | dropStale a f0 ctr => exact count_purge hinv hpo hcf.spec hw f hge hlt
-  | dropLlgr a f0 ctr => exact count_purge hinv hpo hcf.spec hw f hge hlt
-  | dropNoLlgr a f0 ctr => exact count_purge hinv hpo hcf.spec hw f hge hlt
+  | dropStale a f0 ctr =>
+    exact count_purge hinv hpo (fun e h => by simp at h; exact h.1) hcf.spec hw f hge hlt
+  | dropLlgr a f0 ctr =>
+    exact count_purge hinv hpo (fun e h => by simp at h; exact h.1) hcf.spec hw f hge hlt
+  | dropNoLlgr a f0 ctr =>
+    exact count_purge hinv hpo (fun e h => by simp at h; exact h.1) hcf.spec hw f hge hlt
   | restale a f0 => exact moved_same _ _ (hcf.spec.1 _ _) (ctr_of_ctrs_eq hcf.spec.2 _)
   | restaleLlgr a f0 => exact moved_same _ _ (hcf.spec.1 _ _) (ctr_of_ctrs_eq hcf.spec.2 _)
   | nhValidity nh reachable => exact moved_same _ _ (hcf.spec.1 _ _) (ctr_of_ctrs_eq hcf.spec.2 _)
   | startDeferral fam => exact moved_same _ _ (hcf.spec.1 _ _) (ctr_of_ctrs_eq hcf.spec.2 _)
   | endDeferral fam => exact moved_same _ _ (hcf.spec.1 _ _) (ctr_of_ctrs_eq hcf.spec.2 _)
+
+/-- only counters of limited sources of the case are ever written -/
+theorem ctrs_shape {op : Op} (hpo : op.PurgeCtrOk c) (hwf : op.WF c g) (hcf : CtrFacts t op t' r) :
+    t'.ctrs = t.ctrs ∨ ∃ s : Src, s.WF c ∧ s.lim.isSome = true ∧ ∃ f v, t'.ctrs = aset (s.id, f) v t.ctrs := by
+  have hpurge : ∀ (a : Nat) (f0 : Fam) (ctr : Option Nat) (pred : Entry → Bool), PurgeArgOk c a ctr →
+      PurgeSpec t t' a f0 ctr pred →
+      t'.ctrs = t.ctrs ∨ ∃ s : Src, s.WF c ∧ s.lim.isSome = true ∧ ∃ f v, t'.ctrs = aset (s.id, f) v t.ctrs := by
+    intro a f0 ctr pred hpa ⟨gone, hctrs, _⟩
+    cases hc : ctr with
+    | none => rw [hc] at hctrs; exact Or.inl hctrs
+    | some i =>
+      rw [hc] at hctrs
+      obtain ⟨s0, hs0, hl0, ha0, hall⟩ := hpa i hc
+      have hi0 : s0.id = i := hall s0 (List.mem_of_getElem? hs0) ha0
+      refine Or.inr ⟨s0, by unfold Src.WF; rw [hi0]; exact hs0, hl0, f0,
+        atomicDecN gone (t.ctr (i, f0)), ?_⟩
+      rw [hi0]; exact hctrs
+  cases op with
+  | insert src fam net rpid nh attr filtered nhInv =>
+    by_cases hr : r = .limit
+    · rw [(hcf.spec.1 hr).2.2]; exact Or.inl rfl
+    · obtain ⟨_, h3, _, _⟩ := hcf.spec.2 hr
+      split at h3
+      · rename_i hcnd
+        rw [Bool.and_eq_true] at hcnd
+        exact Or.inr ⟨src, hwf.1, hcnd.2, fam, _, h3⟩
+      · exact Or.inl h3
+  | remove src fam net rpid =>
+    obtain ⟨d, _, h3, _⟩ := hcf.spec
+    split at h3
+    · rename_i hcnd
+      rw [Bool.and_eq_true] at hcnd
+      exact Or.inr ⟨src, hwf.1, hcnd.2, fam, _, h3⟩
+    · exact Or.inl h3
+  | drop a f0 => exact hpurge a f0 none _ (fun i h => by cases h) hcf.spec
+  | dropStale a f0 ctr => exact hpurge a f0 ctr _ hpo hcf.spec
+  | dropLlgr a f0 ctr => exact hpurge a f0 ctr _ hpo hcf.spec
+  | dropNoLlgr a f0 ctr => exact hpurge a f0 ctr _ hpo hcf.spec
+  | restale a f0 => exact Or.inl hcf.spec.2
+  | restaleLlgr a f0 => exact Or.inl hcf.spec.2
+  | nhValidity nh reachable => exact Or.inl hcf.spec.2
+  | startDeferral fam => exact Or.inl hcf.spec.2
+  | endDeferral fam => exact Or.inl hcf.spec.2
+
+/-- every counter of the table stays bounded by the number of steps -/
+theorem ctrAll_step {op : Op} {k : Nat} (hpo : op.PurgeCtrOk c) (hwf : op.WF c g) (hcf : CtrFacts t op t' r)
+    (hall : ∀ key, t.ctr key ≤ k)
+    (hge' : ∀ s : Src, s.WF c → s.lim.isSome = true → ∀ f, t'.ctr (s.id, f) ≤ k + 1) :
+    ∀ key, t'.ctr key ≤ k + 1 := by
+  intro key
+  rcases ctrs_shape hpo hwf hcf with h | ⟨s, hw, hl, f, v, h⟩
+  · rw [ctr_of_ctrs_eq h]; have := hall key; omega
+  · by_cases hk : key = (s.id, f)
+    · subst hk; exact hge' s hw hl f
+    · rw [ctr_aset_ne h hk]; have := hall key; omega
 
 end Count
 
@@ -369,6 +434,7 @@ end Count
     long as no operation took paths of the session away without settling its counter -/
 structure GInv (c : Case) (t : Table) (k : Nat) (done : List Op) : Prop where
   bound : ∀ a f, recvCount a (t.rib f) ≤ k ∧ accCount a (t.rib f) ≤ k
+  all : ∀ key, t.ctr key ≤ k
   ge : ∀ s : Src, s.WF c → s.lim.isSome = true → ∀ f,
       sessCount s.id (t.rib f) ≤ t.ctr (s.id, f) ∧ t.ctr (s.id, f) ≤ k
   eq : ∀ s : Src, s.WF c → s.lim.isSome = true → ∀ f, (∀ o ∈ done, o.disturbs s f = false) →
@@ -378,25 +444,28 @@ theorem ginv_empty (c : Case) : GInv c {} 0 [] := by
   have hr : ∀ a f, recvCount a (({} : Table).rib f) = 0 := by intro a f; cases f <;> rfl
   have ha : ∀ a f, accCount a (({} : Table).rib f) = 0 := by intro a f; cases f <;> rfl
   have hs : ∀ i f, sessCount i (({} : Table).rib f) = 0 := by intro i f; cases f <;> rfl
-  refine ⟨?_, ?_, ?_⟩
+  refine ⟨?_, ?_, ?_, ?_⟩
   · intro a f; rw [hr, ha]; exact ⟨Nat.le_refl _, Nat.le_refl _⟩
+  · intro key; exact Nat.le_refl _
   · intro s _ _ f; rw [hs]; exact ⟨Nat.zero_le _, Nat.le_refl _⟩
   · intro s _ _ f _; rw [hs]; rfl
 
 theorem ginv_step {c : Case} {g : Nat → Fam} {t t' : Table} {r : Res} {k : Nat} {done : List Op} {op : Op}
     (hpo : op.PurgeCtrOk c) (hwf : op.WF c g) (hk : k < HALF) (hinv : Inv c g t) (hcf : CtrFacts t op t' r)
     (hg : GInv c t k done) : GInv c t' (k + 1) (done ++ [op]) := by
-  refine ⟨?_, ?_, ?_⟩
+  have hge : ∀ s : Src, s.WF c → s.lim.isSome = true → ∀ f,
+      sessCount s.id (t'.rib f) ≤ t'.ctr (s.id, f) ∧ t'.ctr (s.id, f) ≤ k + 1 := by
+    intro s hw hl f
+    have h0 := hg.ge s hw hl f
+    rcases count_step hpo hwf hinv hcf hw hl f h0.1 (by omega) with ⟨up, dn, h1, h2, h3, h4, _⟩ | ⟨_, h3, h4⟩
+    · omega
+    · omega
+  refine ⟨?_, ctrAll_step hpo hwf hcf hg.all (fun s hw hl f => (hge s hw hl f).2), hge, ?_⟩
   · intro a f
     have := hg.bound a f
     have := hcf.recvLe a f
     have := hcf.accLe a f
     omega
-  · intro s hw hl f
-    have h0 := hg.ge s hw hl f
-    rcases count_step hpo hwf hinv hcf hw hl f h0.1 (by omega) with ⟨up, dn, h1, h2, h3, h4, _⟩ | ⟨_, h3, h4⟩
-    · omega
-    · omega
   · intro s hw hl f hno
     have h0 := hg.ge s hw hl f
     have he := hg.eq s hw hl f (fun o ho => hno o (List.mem_append_left _ ho))
@@ -407,9 +476,44 @@ theorem ginv_step {c : Case} {g : Nat → Fam} {t t' : Table} {r : Res} {k : Nat
 
 /-! ## The invariant of the checker state along a run (one session per limited peer) -/
 
-structure SInv (c : Case) (t : Table) (st : St) (k : Nat) : Prop where
-  prev : ∀ f, famDests st.prev f = (famObs t f).dests
+section Aux
+variable {c : Case} {g : Nat → Fam} {t : Table}
+
+theorem entries_fam (hinv : Inv c g t) {f : Fam} {n : Net} {x : Entry} (hx : x ∈ t.entries f n) : g x.src.id = f := by
+  unfold Table.entries at hx
+  cases hl : alookup n (t.rib f).dests with
+  | none => rw [hl] at hx; simp at hx
+  | some d =>
+    rw [hl] at hx
+    exact (((hinv.rib f).dest _ (alookup_some_mem hl)).srcOk x hx).2
+
+theorem sessCount_pos_of_mem {f : Fam} {n : Net} {x : Entry} (hx : x ∈ t.entries f n) {i : Nat}
+    (hid : x.src.id = i) : 0 < sessCount i (t.rib f) := by
+  unfold Table.entries at hx
+  cases hl : alookup n (t.rib f).dests with
+  | none => rw [hl] at hx; simp at hx
+  | some d =>
+    rw [hl] at hx
+    unfold sessCount cntBy
+    apply List.length_pos_of_mem (a := (n, d))
+    exact List.mem_filter.mpr ⟨alookup_some_mem hl, List.any_eq_true.mpr ⟨x, hx, by simpa using hid⟩⟩
+
+theorem sessCount_zero_of_fam (hinv : Inv c g t) {s : Src} {f : Fam} (hf : g s.id ≠ f) :
+    sessCount s.id (t.rib f) = 0 := by
+  unfold sessCount cntBy
+  rw [List.length_eq_zero_iff, List.filter_eq_nil_iff]
+  intro nd hnd h
+  obtain ⟨e, he, hq⟩ := List.any_eq_true.mp h
+  have := (((hinv.rib f).dest nd hnd).srcOk e he).2
+  rw [show e.src.id = s.id by simpa using hq] at this
+  exact hf this
+
+end Aux
+
+structure SInv (c : Case) (g : Nat → Fam) (t : Table) (st : St) (k : Nat) : Prop where
+  prev : ∀ f, famDests st.prev f = (famObs c t f).dests
   bound : ∀ a f, recvCount a (t.rib f) ≤ k ∧ accCount a (t.rib f) ≤ k
+  all : ∀ key, t.ctr key ≤ k
   ctr : ∀ s : Src, s.WF c → s.lim.isSome = true → ∀ f,
       sessCount s.id (t.rib f) ≤ t.ctr (s.id, f) ∧ t.ctr (s.id, f) ≤ k
   eq : ∀ s : Src, s.WF c → s.lim.isSome = true → ∀ f, (s.id, f) ∉ st.dead →
@@ -417,60 +521,74 @@ structure SInv (c : Case) (t : Table) (st : St) (k : Nat) : Prop where
   idle : ∀ s : Src, s.WF c → s.lim.isSome = true → ∀ f, (s.id, f) ∉ st.dead → ¬ isLive st.live s.id f →
       sessCount s.id (t.rib f) = 0
   live : ∀ i f, isLive st.live i f → (i, f) ∉ st.dead ∧ ∃ s : Src, s.WF c ∧ s.lim.isSome = true ∧ i = s.id
+  /-- a session whose Source is marked (LLGR-)stale has ended -/
+  fresh : ∀ s : Src, s.WF c → s.lim.isSome = true → (s.id ∈ t.stale ∨ s.id ∈ t.llgr) → (s.id, g s.id) ∈ st.dead
 
 section Trans
-variable {c : Case} {t t' : Table} {st : St} {k : Nat}
+variable {c : Case} {g : Nat → Fam} {t t' : Table} {st : St} {k : Nat}
 
 /-- a step that may start one session's use of its counter -/
-theorem sinv_A (hs : SInv c t st k) {live' : List Live} {prev' : List FamObs} (act : Option (Nat × Fam))
+theorem sinv_A (hs : SInv c g t st k) {ref' : SpecRef.RefSt} {live' : List Live} {prev' : List FamObs}
+    (act : Option (Nat × Fam))
     (hlive : ∀ i f, isLive live' i f ↔ isLive st.live i f ∨ (act = some (i, f) ∧ (i, f) ∉ st.dead))
     (hact : ∀ i f, act = some (i, f) → ∃ s : Src, s.WF c ∧ s.lim.isSome = true ∧ i = s.id)
-    (hprev : ∀ f, famDests prev' f = (famObs t' f).dests)
+    (hprev : ∀ f, famDests prev' f = (famObs c t' f).dests)
     (hbound : ∀ a f, recvCount a (t'.rib f) ≤ recvCount a (t.rib f) + 1 ∧
       accCount a (t'.rib f) ≤ accCount a (t.rib f) + 1)
-    (hcnt : ∀ s : Src, s.WF c → s.lim.isSome = true → ∀ f, ∃ up dn : Nat,
-        up ≤ 1 ∧ dn ≤ sessCount s.id (t.rib f) ∧
+    (hall : ∀ key, t'.ctr key ≤ k + 1)
+    (hst : ∀ i, i ∈ t'.stale → i ∈ t.stale) (hll : ∀ i, i ∈ t'.llgr → i ∈ t.llgr)
+    (hcnt : ∀ s : Src, s.WF c → s.lim.isSome = true → ∀ f,
+      (∃ up dn : Nat, up ≤ 1 ∧ dn ≤ sessCount s.id (t.rib f) ∧
         sessCount s.id (t'.rib f) + dn = sessCount s.id (t.rib f) + up ∧
-        t'.ctr (s.id, f) + dn = t.ctr (s.id, f) + up ∧ (act ≠ some (s.id, f) → up = 0 ∧ dn = 0)) :
-    SInv c t' { live := live', dead := st.dead, prev := prev' } (k + 1) := by
-  refine ⟨hprev, ?_, ?_, ?_, ?_, ?_⟩
+        t'.ctr (s.id, f) + dn = t.ctr (s.id, f) + up ∧ (act ≠ some (s.id, f) → up = 0 ∧ dn = 0)) ∨
+      ((s.id, f) ∈ st.dead ∧ sessCount s.id (t'.rib f) ≤ sessCount s.id (t.rib f) ∧
+        t'.ctr (s.id, f) = t.ctr (s.id, f))) :
+    SInv c g t' { ref := ref', live := live', dead := st.dead, prev := prev' } (k + 1) := by
+  refine ⟨hprev, ?_, hall, ?_, ?_, ?_, ?_, ?_⟩
   · intro a f
     have h1 := hs.bound a f
     have h2 := hbound a f
     omega
   · intro s hw hl f
-    obtain ⟨up, dn, h1, h2, h3, h4, _⟩ := hcnt s hw hl f
     have := hs.ctr s hw hl f
-    omega
+    rcases hcnt s hw hl f with ⟨up, dn, h1, h2, h3, h4, _⟩ | ⟨_, h3, h4⟩ <;> omega
   · intro s hw hl f hd
-    obtain ⟨up, dn, h1, h2, h3, h4, _⟩ := hcnt s hw hl f
     have := hs.eq s hw hl f hd
-    omega
+    rcases hcnt s hw hl f with ⟨up, dn, h1, h2, h3, h4, _⟩ | ⟨h, _, _⟩
+    · omega
+    · exact absurd h hd
   · intro s hw hl f hd hnl
-    obtain ⟨up, dn, h1, h2, h3, h4, h5⟩ := hcnt s hw hl f
-    have hn : ¬ isLive st.live s.id f := fun h => hnl ((hlive s.id f).mpr (Or.inl h))
-    have ha : act ≠ some (s.id, f) := fun h => hnl ((hlive s.id f).mpr (Or.inr ⟨h, hd⟩))
-    have := hs.idle s hw hl f hd hn
-    have := h5 ha
-    omega
+    rcases hcnt s hw hl f with ⟨up, dn, h1, h2, h3, h4, h5⟩ | ⟨h, _, _⟩
+    · have hn : ¬ isLive st.live s.id f := fun h => hnl ((hlive s.id f).mpr (Or.inl h))
+      have ha : act ≠ some (s.id, f) := fun h => hnl ((hlive s.id f).mpr (Or.inr ⟨h, hd⟩))
+      have := hs.idle s hw hl f hd hn
+      have := h5 ha
+      omega
+    · exact absurd h hd
   · intro i f h
     rcases (hlive i f).mp h with h | ⟨ha, hd⟩
     · exact hs.live i f h
     · exact ⟨hd, hact i f ha⟩
+  · intro s hw hl h
+    exact hs.fresh s hw hl (h.elim (fun h => Or.inl (hst _ h)) (fun h => Or.inr (hll _ h)))
 
 /-- a step that ends the sessions of peer `a` in family `f0` -/
-theorem sinv_K (hs : SInv c t st k) (a : Nat) (f0 : Fam) {prev' : List FamObs}
-    (hprev : ∀ f, famDests prev' f = (famObs t' f).dests)
+theorem sinv_K (hs : SInv c g t st k) (a : Nat) (f0 : Fam) {ref' : SpecRef.RefSt} {prev' : List FamObs}
+    (hprev : ∀ f, famDests prev' f = (famObs c t' f).dests)
     (hbound : ∀ a f, recvCount a (t'.rib f) ≤ recvCount a (t.rib f) + 1 ∧
       accCount a (t'.rib f) ≤ accCount a (t.rib f) + 1)
+    (hall : ∀ key, t'.ctr key ≤ k + 1)
+    (hmark : ∀ s : Src, s.WF c → s.lim.isSome = true → (s.id ∈ t'.stale ∨ s.id ∈ t'.llgr) →
+      (s.id ∈ t.stale ∨ s.id ∈ t.llgr) ∨
+      (addrOf c s.id = some a ∧ g s.id = f0 ∧ 0 < sessCount s.id (t.rib f0)))
     (hcnt : ∀ s : Src, s.WF c → s.lim.isSome = true → ∀ f,
       sessCount s.id (t'.rib f) ≤ sessCount s.id (t.rib f) ∧ t'.ctr (s.id, f) = t.ctr (s.id, f) ∧
       (¬ (f = f0 ∧ addrOf c s.id = some a) → sessCount s.id (t'.rib f) = sessCount s.id (t.rib f))) :
-    SInv c t' { live := deactivate c st.live a f0,
-                dead := ((st.live.filter fun l => l.fam = f0 && addrOf c l.src == some a).map
-                  fun l => (l.src, l.fam)) ++ st.dead,
-                prev := prev' } (k + 1) := by
-  refine ⟨hprev, ?_, ?_, ?_, ?_, ?_⟩
+    SInv c g t' { ref := ref', live := deactivate c st.live a f0,
+                  dead := ((st.live.filter fun l => l.fam = f0 && addrOf c l.src == some a).map
+                    fun l => (l.src, l.fam)) ++ st.dead,
+                  prev := prev' } (k + 1) := by
+  refine ⟨hprev, ?_, hall, ?_, ?_, ?_, ?_, ?_⟩
   · intro a' f
     have h1 := hs.bound a' f
     have h2 := hbound a' f
@@ -508,6 +626,19 @@ theorem sinv_K (hs : SInv c t st k) (a : Nat) (f0 : Fam) {prev' : List FamObs}
     refine ⟨?_, (hs.live i f h.1).2⟩
     rw [mem_dead_kill, not_or]
     exact ⟨fun hh => h.2 hh.2, (hs.live i f h.1).1⟩
+  · intro s hw hl h
+    simp only []
+    rw [mem_dead_kill]
+    rcases hmark s hw hl h with h | ⟨ha, hg, hpos⟩
+    · exact Or.inr (hs.fresh s hw hl h)
+    · by_cases hd : (s.id, g s.id) ∈ st.dead
+      · exact Or.inr hd
+      · rw [hg] at hd ⊢
+        refine Or.inl ⟨?_, rfl, ha⟩
+        apply Classical.byContradiction
+        intro hn
+        have := hs.idle s hw hl f0 hd hn
+        omega
 
 end Trans
 
@@ -552,43 +683,84 @@ theorem kill_of_moved {s : Src} {f f0 : Fam} {a : Nat} {tg dist : Bool} (hw : s.
     exact ⟨hf, by rw [addrOf_wf hw, ha]⟩
 
 theorem sinv_step (hone : c.OneSession) {op : Op} (hpo : op.PurgeCtrOk c) (hwf : op.WF c g) (hk : k < HALF)
-    (hinv : Inv c g t) (hcf : CtrFacts t op t' r) (hs : SInv c t st k) :
-    SInv c t' { live := liveStep c st op, dead := deadStep c st op, prev := (stepObs c (t', r)).fams } (k + 1) := by
-  have hprev : ∀ f, famDests (stepObs c (t', r)).fams f = (famObs t' f).dests := fun f => famDests_allFams t' f
+    (hinv : Inv c g t) (hcf : CtrFacts t op t' r) (hX : EntryExact t op t' r) (hs : SInv c g t st k)
+    (ref' : SpecRef.RefSt) :
+    SInv c g t' { ref := ref', live := liveStep c st op, dead := deadStep c st op,
+                  prev := (stepObs c op (t', r)).fams } (k + 1) := by
+  have hprev : ∀ f, famDests (stepObs c op (t', r)).fams f = (famObs c t' f).dests :=
+    fun f => famDests_allFams c t' f
   have hbound : ∀ a f, recvCount a (t'.rib f) ≤ recvCount a (t.rib f) + 1 ∧
       accCount a (t'.rib f) ≤ accCount a (t.rib f) + 1 := fun a f => ⟨hcf.recvLe a f, hcf.accLe a f⟩
   have hmv : ∀ s : Src, s.WF c → s.lim.isSome = true → ∀ f, Moved t t' s f (op.targets s f) (op.disturbs s f) := by
     intro s hw hl f
     have h0 := hs.ctr s hw hl f
     exact count_step hpo hwf hinv hcf hw hl f h0.1 (by omega)
+  have hall : ∀ key, t'.ctr key ≤ k + 1 := by
+    refine ctrAll_step hpo hwf hcf hs.all ?_
+    intro s hw hl f
+    have h0 := hs.ctr s hw hl f
+    rcases hmv s hw hl f with ⟨up, dn, h1, h2, h3, h4, _⟩ | ⟨_, _, h4⟩ <;> omega
+  -- the stale markers change only through restale / restale_llgr
+  have hst : (∀ a f, op ≠ .restale a f) → ∀ i, i ∈ t'.stale → i ∈ t.stale := by
+    intro hno i hi
+    rcases (hX.stale i).mp hi with h | ⟨a, f, e, _⟩
+    · exact h
+    · exact absurd e (hno a f)
+  have hll : (∀ a f, op ≠ .restaleLlgr a f) → ∀ i, i ∈ t'.llgr → i ∈ t.llgr := by
+    intro hno i hi
+    rcases (hX.llgr i).mp hi with h | ⟨a, f, e, _⟩
+    · exact h
+    · exact absurd e (hno a f)
   -- another session of a limited peer does not exist
   have hsame : ∀ (s src : Src), s.WF c → s.lim.isSome = true → src.WF c → src.addr = s.addr → src.id = s.id := by
     intro s src hw hl hsw ha
     rw [hone s (src_mem_of_wf hw) src (src_mem_of_wf hsw) ha.symm hl]
-  have hnone : (∀ s f, op.targets s f = false) → (∀ s f, op.disturbs s f = false) →
-      SInv c t' { live := st.live, dead := st.dead, prev := (stepObs c (t', r)).fams } (k + 1) := by
-    intro h1 h2
-    refine sinv_A hs none (fun i f => ⟨Or.inl, ?_⟩) (fun i f h => absurd h (by simp)) hprev hbound ?_
+  have hmarked : ∀ (a : Nat) (f0 : Fam) (s : Src), s.WF c → marksOf t a f0 s.id →
+      addrOf c s.id = some a ∧ g s.id = f0 ∧ 0 < sessCount s.id (t.rib f0) := by
+    rintro a f0 s hw ⟨n, x, hx, hxa, hxi⟩
+    have hxs : x.src = s := src_eq_of_id (entries_wf hinv hx) hw hxi
+    refine ⟨?_, ?_, sessCount_pos_of_mem hx hxi⟩
+    · rw [addrOf_wf hw, ← hxs]; simpa [sameAddr] using hxa
+    · rw [← hxi]; exact entries_fam hinv hx
+  have hnone : (∀ a f, op ≠ .restale a f) → (∀ a f, op ≠ .restaleLlgr a f) →
+      (∀ s f, op.targets s f = false) → (∀ s f, op.disturbs s f = false) →
+      SInv c g t' { ref := ref', live := st.live, dead := st.dead, prev := (stepObs c op (t', r)).fams } (k + 1) := by
+    intro hn1 hn2 h1 h2
+    refine sinv_A hs none (fun i f => ⟨Or.inl, ?_⟩) (fun i f h => absurd h (by simp)) hprev hbound hall
+      (hst hn1) (hll hn2) ?_
     · rintro (h | ⟨h, _⟩)
       · exact h
       · exact absurd h (by simp)
     · intro s hw hl f
-      exact cnt_of_moved (hmv s hw hl f) (h2 s f) (fun h => by rw [h1 s f] at h; cases h)
+      exact Or.inl (cnt_of_moved (hmv s hw hl f) (h2 s f) (fun h => by rw [h1 s f] at h; cases h))
   have hkill : ∀ a f0, (∀ s f, op.targets s f = false) →
       (∀ (s : Src) f, op.disturbs s f = true → f = f0 ∧ s.addr = a) →
-      SInv c t' { live := deactivate c st.live a f0,
-                  dead := ((st.live.filter fun l => l.fam = f0 && addrOf c l.src == some a).map
-                    fun l => (l.src, l.fam)) ++ st.dead,
-                  prev := (stepObs c (t', r)).fams } (k + 1) := by
-    intro a f0 h1 h2
-    exact sinv_K hs a f0 hprev hbound (fun s hw hl f => kill_of_moved hw (hmv s hw hl f) (h1 s f) (h2 s f))
-  have hact : ∀ (src : Src) (fam : Fam), (src.lim.isSome = true → src.WF c) →
+      (∀ i, i ∈ t'.stale → i ∈ t.stale ∨ marksOf t a f0 i) → (∀ i, i ∈ t'.llgr → i ∈ t.llgr ∨ marksOf t a f0 i) →
+      SInv c g t' { ref := ref', live := deactivate c st.live a f0,
+                    dead := ((st.live.filter fun l => l.fam = f0 && addrOf c l.src == some a).map
+                      fun l => (l.src, l.fam)) ++ st.dead,
+                    prev := (stepObs c op (t', r)).fams } (k + 1) := by
+    intro a f0 h1 h2 hs1 hs2
+    refine sinv_K hs a f0 hprev hbound hall ?_
+      (fun s hw hl f => kill_of_moved hw (hmv s hw hl f) (h1 s f) (h2 s f))
+    intro s hw hl h
+    rcases h with h | h
+    · rcases hs1 _ h with h | h
+      · exact Or.inl (Or.inl h)
+      · exact Or.inr (hmarked a f0 s hw h)
+    · rcases hs2 _ h with h | h
+      · exact Or.inl (Or.inr h)
+      · exact Or.inr (hmarked a f0 s hw h)
+  have hact : ∀ (src : Src) (fam : Fam), (∀ a f, op ≠ .restale a f) → (∀ a f, op ≠ .restaleLlgr a f) →
+      (src.lim.isSome = true → src.WF c) →
       (∀ (s : Src), s.WF c → s.lim.isSome = true → ∀ f, op.disturbs s f = false) →
       (∀ (s : Src), s.WF c → s.lim.isSome = true → ∀ f, op.targets s f = true →
         src.lim.isSome = true ∧ src.id = s.id ∧ fam = f) →
-      SInv c t' { live := activate c st src fam, dead := st.dead, prev := (stepObs c (t', r)).fams } (k + 1) := by
-    intro src fam hsw h1 h2
-    refine sinv_A hs (if src.lim.isSome then some (src.id, fam) else none) ?_ ?_ hprev hbound ?_
+      SInv c g t' { ref := ref', live := activate c st src fam, dead := st.dead,
+                    prev := (stepObs c op (t', r)).fams } (k + 1) := by
+    intro src fam hn1 hn2 hsw h1 h2
+    refine sinv_A hs (if src.lim.isSome then some (src.id, fam) else none) ?_ ?_ hprev hbound hall
+      (hst hn1) (hll hn2) ?_
     · intro i f
       rw [isLive_activate hone (fun i f h => (hs.live i f h).2) hsw fam i f, act_of_src]
     · intro i f h
@@ -598,45 +770,60 @@ theorem sinv_step (hone : c.OneSession) {op : Op} (hpo : op.PurgeCtrOk c) (hwf :
         simp only [if_true, Option.some.injEq, Prod.mk.injEq] at h
         exact ⟨src, hsw hl, hl, h.1.symm⟩
     · intro s hw hl f
-      refine cnt_of_moved (hmv s hw hl f) (h1 s hw hl f) ?_
+      refine Or.inl (cnt_of_moved (hmv s hw hl f) (h1 s hw hl f) ?_)
       intro htg
       obtain ⟨e1, e2, e3⟩ := h2 s hw hl f htg
       rw [e1, e2, e3]; rfl
-  have hpurge : ∀ (a : Nat) (f0 : Fam) (ctr : Option Nat), PurgeArgOk c a ctr →
-      (∀ (s : Src) f, op.targets s f = (f0 == f && a == s.addr && ctr.isSome)) →
-      (∀ (s : Src) f, op.disturbs s f = (f0 == f && a == s.addr && ctr.isNone)) →
-      SInv c t' { live := (match ctr.bind (c.srcs[·]?) with
-                    | some s => activate c st s f0
-                    | none => deactivate c st.live a f0),
-                  dead := (match ctr.bind (c.srcs[·]?) with
-                    | some _ => st.dead
-                    | none => ((st.live.filter fun l => l.fam = f0 && addrOf c l.src == some a).map
-                        fun l => (l.src, l.fam)) ++ st.dead),
-                  prev := (stepObs c (t', r)).fams } (k + 1) := by
-    intro a f0 ctr hpa ht hd
-    cases hc : ctr with
-    | none =>
-      refine hkill a f0 (fun s f => by rw [ht, hc]; simp) (fun s f h => ?_)
-      rw [hd, hc] at h
-      simp only [Option.isNone_none, Bool.and_true, Bool.and_eq_true, beq_iff_eq] at h
-      exact ⟨h.1.symm, h.2.symm⟩
-    | some i =>
-      obtain ⟨s0, hs0, ha0, hall⟩ := hpa i hc
-      have hi0 : s0.id = i := hall s0 (List.mem_of_getElem? hs0) ha0
-      have hw0 : s0.WF c := by unfold Src.WF; rw [hi0]; exact hs0
-      have hb : (some i : Option Nat).bind (c.srcs[·]?) = some s0 := hs0
-      rw [hb]
-      refine hact s0 f0 (fun _ => hw0) (fun s _ _ f => by rw [hd, hc]; simp) ?_
-      intro s hw hl f htg
-      rw [ht, hc] at htg
-      simp only [Option.isSome_some, Bool.and_true, Bool.and_eq_true, beq_iff_eq] at htg
-      have hsid : s.id = i := hall s (src_mem_of_wf hw) htg.2.symm
-      have : s0 = s := src_eq_of_id hw0 hw (by rw [hi0, hsid])
-      subst this
-      exact ⟨hl, rfl, htg.1⟩
+  -- a stale-path purge that is handed a counter starts (or continues) that session
+  have hpurgeSome : ∀ (a : Nat) (f0 : Fam) (i : Nat), PurgeArgOk c a (some i) →
+      (∀ a f, op ≠ .restale a f) → (∀ a f, op ≠ .restaleLlgr a f) →
+      (∀ (s : Src) f, op.targets s f = (f0 == f && a == s.addr && true)) →
+      (∀ (s : Src) f, op.disturbs s f = (f0 == f && a == s.addr && false)) →
+      ∃ s0, c.srcs[i]? = some s0 ∧
+        SInv c g t' { ref := ref', live := activate c st s0 f0, dead := st.dead,
+                      prev := (stepObs c op (t', r)).fams } (k + 1) := by
+    intro a f0 i hpa hn1 hn2 ht hd
+    obtain ⟨s0, hs0, _, ha0, hall0⟩ := hpa i rfl
+    have hi0 : s0.id = i := hall0 s0 (List.mem_of_getElem? hs0) ha0
+    have hw0 : s0.WF c := by unfold Src.WF; rw [hi0]; exact hs0
+    refine ⟨s0, hs0, hact s0 f0 hn1 hn2 (fun _ => hw0) (fun s _ _ f => by rw [hd]; simp) ?_⟩
+    intro s hw hl f htg
+    rw [ht] at htg
+    simp only [Bool.and_true, Bool.and_eq_true, beq_iff_eq] at htg
+    have hsid : s.id = i := hall0 s (src_mem_of_wf hw) htg.2.symm
+    have : s0 = s := src_eq_of_id hw0 hw (by rw [hi0, hsid])
+    subst this
+    exact ⟨hl, rfl, htg.1⟩
+  -- a counter-less purge of the paths of sessions marked (LLGR-)stale: the sessions in progress are not
+  -- marked, so they lose nothing
+  have hquiet : ∀ (a : Nat) (f0 : Fam) (pred : Entry → Bool), PurgeSpec t t' a f0 none pred →
+      (∀ e, pred e = true → e.src.id ∈ t.stale ∨ e.src.id ∈ t.llgr) →
+      (∀ a f, op ≠ .restale a f) → (∀ a f, op ≠ .restaleLlgr a f) →
+      SInv c g t' { ref := ref', live := st.live, dead := st.dead, prev := (stepObs c op (t', r)).fams } (k + 1) := by
+    intro a f0 pred ⟨gone, hctrs, hle, hsm, _⟩ hpred hn1 hn2
+    refine sinv_A hs none (fun i f => ⟨Or.inl, ?_⟩) (fun i f h => absurd h (by simp)) hprev hbound hall
+      (hst hn1) (hll hn2) ?_
+    · rintro (h | ⟨h, _⟩)
+      · exact h
+      · exact absurd h (by simp)
+    · intro s hw hl f
+      have hc : t'.ctr (s.id, f) = t.ctr (s.id, f) := ctr_of_ctrs_eq hctrs _
+      by_cases hd : (s.id, f) ∈ st.dead
+      · exact Or.inr ⟨hd, hle s.id f, hc⟩
+      · refine Or.inl ⟨0, 0, by omega, by omega, ?_, by omega, fun _ => ⟨rfl, rfl⟩⟩
+        rw [hsm s.id f]
+        intro hf nd hnd e he hei
+        cases hpe : pred e
+        · rfl
+        · exfalso
+          have hgf : g s.id = f := by
+            rw [← hei, hf]; exact (((hinv.rib f0).dest nd hnd).srcOk e he).2
+          have := hs.fresh s hw hl (by rw [← hei]; exact hpred e hpe)
+          rw [hgf] at this
+          exact hd this
   cases op with
   | insert src fam net rpid nh attr filtered nhInv =>
-    refine hact src fam (fun _ => hwf.1) ?_ ?_
+    refine hact src fam (fun _ _ h => by cases h) (fun _ _ h => by cases h) (fun _ => hwf.1) ?_ ?_
     · intro s hw hl f
       cases hd : (Op.insert src fam net rpid nh attr filtered nhInv).disturbs s f
       · rfl
@@ -648,7 +835,7 @@ theorem sinv_step (hone : c.OneSession) {op : Op} (hpo : op.PurgeCtrOk c) (hwf :
       subst this
       exact ⟨hl, rfl, htg.1⟩
   | remove src fam net rpid =>
-    refine hact src fam (fun _ => hwf.1) ?_ ?_
+    refine hact src fam (fun _ _ h => by cases h) (fun _ _ h => by cases h) (fun _ => hwf.1) ?_ ?_
     · intro s hw hl f
       cases hd : (Op.remove src fam net rpid).disturbs s f
       · rfl
@@ -661,38 +848,98 @@ theorem sinv_step (hone : c.OneSession) {op : Op} (hpo : op.PurgeCtrOk c) (hwf :
       exact ⟨hl, rfl, htg.1⟩
   | drop a f0 =>
     refine hkill a f0 (fun _ _ => rfl) (fun s f h => ?_)
+      (fun i hi => Or.inl (hst (fun _ _ h => by cases h) i hi)) (fun i hi => Or.inl (hll (fun _ _ h => by cases h) i hi))
     simp only [Op.disturbs, Bool.and_eq_true, beq_iff_eq] at h
     exact ⟨h.1.symm, h.2.symm⟩
-  | dropStale a f0 ctr => exact hpurge a f0 ctr hpo (fun _ _ => rfl) (fun _ _ => rfl)
-  | dropLlgr a f0 ctr => exact hpurge a f0 ctr hpo (fun _ _ => rfl) (fun _ _ => rfl)
-  | dropNoLlgr a f0 ctr => exact hpurge a f0 ctr hpo (fun _ _ => rfl) (fun _ _ => rfl)
-  | restale a f0 => exact hkill a f0 (fun _ _ => rfl) (fun s f h => by simp [Op.disturbs] at h)
-  | restaleLlgr a f0 => exact hkill a f0 (fun _ _ => rfl) (fun s f h => by simp [Op.disturbs] at h)
-  | nhValidity nh reachable => exact hnone (fun _ _ => rfl) (fun _ _ => rfl)
-  | startDeferral fam => exact hnone (fun _ _ => rfl) (fun _ _ => rfl)
-  | endDeferral fam => exact hnone (fun _ _ => rfl) (fun _ _ => rfl)
+  | dropStale a f0 ctr =>
+    cases ctr with
+    | none =>
+      exact hquiet a f0 _ hcf.spec (fun e h => by
+        simp only [Bool.and_eq_true, Entry.isStale] at h
+        exact Or.inl (List.contains_iff_mem.mp h.2)) (fun _ _ h => by cases h) (fun _ _ h => by cases h)
+    | some i =>
+      obtain ⟨s0, hs0, h⟩ := hpurgeSome a f0 i hpo (fun _ _ h => by cases h) (fun _ _ h => by cases h)
+        (fun _ _ => rfl) (fun _ _ => rfl)
+      have hl : liveStep c st (.dropStale a f0 (some i)) = activate c st s0 f0 := by
+        show (match c.srcs[i]? with | some s => activate c st s f0 | none => st.live) = _
+        rw [hs0]
+      rw [hl]; exact h
+  | dropLlgr a f0 ctr =>
+    cases ctr with
+    | none =>
+      exact hquiet a f0 _ hcf.spec (fun e h => by
+        simp only [Bool.and_eq_true] at h
+        exact Or.inr (List.contains_iff_mem.mp h.2)) (fun _ _ h => by cases h) (fun _ _ h => by cases h)
+    | some i =>
+      obtain ⟨s0, hs0, h⟩ := hpurgeSome a f0 i hpo (fun _ _ h => by cases h) (fun _ _ h => by cases h)
+        (fun _ _ => rfl) (fun _ _ => rfl)
+      have hl : liveStep c st (.dropLlgr a f0 (some i)) = activate c st s0 f0 := by
+        show (match c.srcs[i]? with | some s => activate c st s f0 | none => st.live) = _
+        rw [hs0]
+      rw [hl]; exact h
+  | dropNoLlgr a f0 ctr =>
+    cases ctr with
+    | none =>
+      refine hkill a f0 (fun s f => by simp [Op.targets]) (fun s f h => ?_)
+        (fun i hi => Or.inl (hst (fun _ _ h => by cases h) i hi))
+        (fun i hi => Or.inl (hll (fun _ _ h => by cases h) i hi))
+      simp only [Op.disturbs, Option.isNone_none, Bool.and_true, Bool.and_eq_true, beq_iff_eq] at h
+      exact ⟨h.1.symm, h.2.symm⟩
+    | some i =>
+      obtain ⟨s0, hs0, h⟩ := hpurgeSome a f0 i hpo (fun _ _ h => by cases h) (fun _ _ h => by cases h)
+        (fun _ _ => rfl) (fun _ _ => rfl)
+      have hl : liveStep c st (.dropNoLlgr a f0 (some i)) = activate c st s0 f0 := by
+        show (match c.srcs[i]? with | some s => activate c st s f0 | none => deactivate c st.live a f0) = _
+        rw [hs0]
+      have hd : deadStep c st (.dropNoLlgr a f0 (some i)) = st.dead := by
+        show (match c.srcs[i]? with | some _ => st.dead | none => _) = _
+        rw [hs0]
+      rw [hl, hd]; exact h
+  | restale a f0 =>
+    refine hkill a f0 (fun _ _ => rfl) (fun s f h => by simp [Op.disturbs] at h) ?_
+      (fun i hi => Or.inl (hll (fun _ _ h => by cases h) i hi))
+    intro i hi
+    rcases (hX.stale i).mp hi with h | ⟨a', f', e, hm⟩
+    · exact Or.inl h
+    · cases e; exact Or.inr hm
+  | restaleLlgr a f0 =>
+    refine hkill a f0 (fun _ _ => rfl) (fun s f h => by simp [Op.disturbs] at h)
+      (fun i hi => Or.inl (hst (fun _ _ h => by cases h) i hi)) ?_
+    intro i hi
+    rcases (hX.llgr i).mp hi with h | ⟨a', f', e, hm⟩
+    · exact Or.inl h
+    · cases e; exact Or.inr hm
+  | nhValidity nh reachable =>
+    exact hnone (fun _ _ h => by cases h) (fun _ _ h => by cases h) (fun _ _ => rfl) (fun _ _ => rfl)
+  | startDeferral fam =>
+    exact hnone (fun _ _ h => by cases h) (fun _ _ h => by cases h) (fun _ _ => rfl) (fun _ _ => rfl)
+  | endDeferral fam =>
+    exact hnone (fun _ _ h => by cases h) (fun _ _ h => by cases h) (fun _ _ => rfl) (fun _ _ => rfl)
 
 end Step
 
 /-! ## One step passes the checker -/
 
-theorem res_obs_limit {fl : Flags} {r : Res} (h : r.obs fl = .limit) : r = .limit := by
+theorem res_obs_limit {sh : Nat} {fl : Flags} {r : Res} (h : r.obs sh fl = .limit) : r = .limit := by
   cases r with
   | removed c => cases c <;> simp [Res.obs] at h
   | limit => rfl
   | _ => simp [Res.obs] at h
 
 theorem checkStep_ok {c : Case} {g : Nat → Fam} {t t' : Table} {r : Res} {st : St} {k : Nat} {op : Op}
-    {live' : List Live} {dead' : List (Nat × Fam)} {prev' : List FamObs} (hone : c.OneSession)
+    {ref' : SpecRef.RefSt} {live' : List Live} {dead' : List (Nat × Fam)} {prev' : List FamObs} (hone : c.OneSession)
     (hinv : Inv c g t) (hinv' : Inv c g t') (hk : k + 1 < HALF)
-    (hs : SInv c t st k) (hs' : SInv c t' { live := live', dead := dead', prev := prev' } (k + 1))
+    (hs : SInv c g t st k)
+    (hs' : SInv c g t' { ref := ref', live := live', dead := dead', prev := prev' } (k + 1))
     (hwf : op.WF c g) (hcf : CtrFacts t op t' r) :
-    checkStep c st live' op (stepObs c (t', r)) = none := by
+    checkStep c st live' op (stepObs c op (t', r)) = none := by
   unfold checkStep
   simp only []
   rw [firstSome_none]
   · rw [Option.orElse_none, firstSome_none]
-    · rw [Option.orElse_none]
+    · rw [Option.orElse_none, ctrs_any_stepObs hinv' op r (fun key => by have := hs'.all key; omega)]
+      simp only [Bool.false_eq_true, if_false]
+      rw [Option.orElse_none]
       cases op with
       | insert src fam net rpid nh attr filtered nhInv =>
         simp only []
@@ -716,7 +963,8 @@ theorem checkStep_ok {c : Case} {g : Nat → Fam} {t t' : Table} {r : Res} {st :
           obtain ⟨e1, _, e4, _⟩ := hcf.spec.2 hr
           rw [hhas] at e1
           have hn := obs_unf_le t' fam (hinv'.rib fam) src.addr
-          rw [show famDests (stepObs c (t', r)).fams fam = (famObs t' fam).dests from famDests_allFams t' fam] at h3
+          rw [show famDests (stepObs c (.insert src fam net rpid nh attr filtered nhInv) (t', r)).fams fam =
+            (famObs c t' fam).dests from famDests_allFams c t' fam] at h3
           have hc := (hs.ctr src hwf.1 hl fam).1
           have := e4 hhas max hlim
           have hsr := sess_eq_recv hone (hinv'.rib fam) hwf.1 hl
@@ -728,22 +976,23 @@ theorem checkStep_ok {c : Case} {g : Nat → Fam} {t t' : Table} {r : Res} {st :
       rw [hid] at hnd ⊢
       rw [addrOf_wf hw]
       simp only []
-      rw [ctrOf_stepObs hinv' r s.id l.fam, show (stepObs c (t', r)).fams = allFams.map (famObs t') from rfl,
+      rw [ctrOf_stepObs hinv' op r s.id l.fam,
+        show (stepObs c op (t', r)).fams = allFams.map (famObs c t') from rfl,
         fams_any, famDests_allFams, obs_sess t' l.fam (hinv'.rib l.fam)]
       have heq := hs'.eq s hw hlim l.fam hnd
       have hb := (hs'.ctr s hw hlim l.fam).2
       rw [if_neg (by omega), if_neg]
       rw [heq]; simp
   · intro fo hfo
-    obtain ⟨f, rfl⟩ := mem_fams (t := t') hfo
+    obtain ⟨f, rfl⟩ := mem_fams (c := c) (t := t') hfo
     obtain ⟨e1, e2, e3⟩ := obs_state t' f (hinv'.rib f)
     rw [if_neg (fun h => h e1), if_neg (fun h => h e2), if_neg (fun h => h e3)]
     apply firstSome_none
     intro a ha
     have ha' : a ∈ c.srcs.map (·.addr) := List.mem_eraseDups.mp ha
-    have hst := statOf_stepObs hinv' r ha' f
+    have hst := statOf_stepObs hinv' op r ha' f
     have hb := hs'.bound a f
-    rw [show (famObs t' f).fam = f from rfl, hst]
+    rw [show (famObs c t' f).fam = f from rfl, hst]
     simp only []
     rw [if_neg (by simp only [Bool.or_eq_true, decide_eq_true_eq]; omega),
       if_neg (fun h => h (obs_recv t' f (hinv'.rib f) a).symm),
@@ -751,48 +1000,75 @@ theorem checkStep_ok {c : Case} {g : Nat → Fam} {t t' : Table} {r : Res} {st :
 
 /-! ## The master theorem -/
 
-theorem sinv_empty (c : Case) : SInv c {} {} 0 := by
+theorem sinv_empty (c : Case) (g : Nat → Fam) : SInv c g {} {} 0 := by
   have hr : ∀ a f, recvCount a (({} : Table).rib f) = 0 := by intro a f; cases f <;> rfl
   have ha : ∀ a f, accCount a (({} : Table).rib f) = 0 := by intro a f; cases f <;> rfl
   have hsc : ∀ i f, sessCount i (({} : Table).rib f) = 0 := by intro i f; cases f <;> rfl
-  refine ⟨?_, ?_, ?_, ?_, ?_, ?_⟩
+  refine ⟨?_, ?_, ?_, ?_, ?_, ?_, ?_, ?_⟩
   · intro f; cases f <;> rfl
   · intro a f; rw [hr, ha]; exact ⟨Nat.le_refl _, Nat.le_refl _⟩
+  · intro key; exact Nat.le_refl _
   · intro s _ _ f; rw [hsc]; exact ⟨Nat.zero_le _, Nat.le_refl _⟩
   · intro s _ _ f _; rw [hsc]; rfl
   · intro s _ _ f _ _; exact hsc _ _
   · rintro i f ⟨l, hl, _⟩; simp at hl
+  · intro s _ _ h; rcases h with h | h <;> simp at h
 
-theorem checkSteps_ok (hS : AllSound) {c : Case} {g : Nat → Fam} (p : Profile) (hone : c.OneSession) :
-    ∀ (ops : List Op) (t : Table) (st : St) (k i : Nat), (∀ op ∈ ops, op.WF c g) → (∀ op ∈ ops, op.PurgeCtrOk c) →
-      k + ops.length < HALF → Inv c g t → SInv c t st k →
-      checkSteps c i st ops ((runFrom p t ops).1.map (stepObs c)) = .ok := by
+theorem runFrom_length (hS : AllSound) {c : Case} {g : Nat → Fam} (p : Profile) (ops : List Op)
+    (hops : ∀ op ∈ ops, op.WF c g) (t : Table) (hinv : Inv c g t) : (runFrom p t ops).1.length = ops.length := by
+  induction ops generalizing t with
+  | nil => rfl
+  | cons op ops ih =>
+    obtain ⟨t', r, _, hrun, hinv', _⟩ := run_step hS p ops (hops op List.mem_cons_self) hinv
+    rw [hrun]
+    simp only [List.length_cons]
+    rw [ih (fun o ho => hops o (List.mem_cons_of_mem _ ho)) t' hinv']
+
+theorem checkSteps_ok (hS : AllSound) (hR : RefSound) {c : Case} {g : Nat → Fam} (p : Profile) (hone : c.OneSession) :
+    ∀ (ops : List Op) (t : Table) (st : St) (k i : Nat), (∀ op ∈ ops, op.WF c g) → (∀ op ∈ ops, op.AttrRef c) →
+      (∀ op ∈ ops, op.PurgeCtrOk c) → k + ops.length < HALF → Inv c g t → SInv c g t st k →
+      RefRel t st.ref → AttrRefInv c t →
+      checkSteps c i st ops (List.zipWith (stepObs c) ops (runFrom p t ops).1) = .ok := by
   intro ops
   induction ops with
-  | nil => intro t st k i _ _ _ _ _; rfl
+  | nil => intro t st k i _ _ _ _ _ _ _ _; rfl
   | cons op ops ih =>
-    intro t st k i hwf hpo hk hinv hs
-    obtain ⟨t', r, hstep, hrun, hinv', _, _⟩ := run_step hS p ops (hwf op List.mem_cons_self) hinv
+    intro t st k i hwf har hpo hk hinv hs hrel hattr
+    obtain ⟨t', r, hstep, hrun, hinv', _, hE, hX⟩ := run_step hS p ops (hwf op List.mem_cons_self) hinv
     have hcf := ctrFacts_step p hinv hinv' op hstep
     have hlen : k + (ops.length + 1) < HALF := by simpa using hk
-    have hs' := sinv_step hone (hpo op List.mem_cons_self) (hwf op List.mem_cons_self) (by omega) hinv hcf hs
+    have hattr' := attrRef_step hattr (har op List.mem_cons_self) hE
+    obtain ⟨hrel', hchk0⟩ := hR c g p t op t' r st.ref (hwf op List.mem_cons_self) hinv hinv' hstep hE hX hattr
+      hattr' hrel
+    have hs' := sinv_step hone (hpo op List.mem_cons_self) (hwf op List.mem_cons_self) (by omega) hinv hcf hX hs
+      (SpecRef.refStep c st.ref op (r.obs c.shard t'.flags))
     have hchk := checkStep_ok hone hinv hinv' (by omega) hs hs' (hwf op List.mem_cons_self) hcf
     rw [hrun]
-    simp only [List.map_cons]
-    rw [checkSteps, hchk]
+    simp only [List.zipWith_cons_cons]
+    rw [checkSteps]
+    rw [show SpecRef.check c (SpecRef.refStep c st.ref op (stepObs c op (t', r)).res) (stepObs c op (t', r)) = none
+      from hchk0, Option.orElse_none, hchk]
     exact ih t' _ (k + 1) (i + 1) (fun o ho => hwf o (List.mem_cons_of_mem _ ho))
-      (fun o ho => hpo o (List.mem_cons_of_mem _ ho)) (by omega) hinv' hs'
+      (fun o ho => har o (List.mem_cons_of_mem _ ho))
+      (fun o ho => hpo o (List.mem_cons_of_mem _ ho)) (by omega) hinv' hs' hrel' hattr'
 
 /-- **C15, partial**: with one session per limited peer the reference checker accepts every model run. -/
-theorem check_run_ok_partial (hS : AllSound) {c : Case} {g : Nat → Fam} (p : Profile) (h : c.WFWith g)
-    (hpc : c.PurgeCtrOk) (hsh : c.Short) (hone : c.OneSession) : SpecC15.check c (observe p c) = .ok := by
-  have hsteps : (observe p c).steps = (runFrom p {} c.ops).1.map (stepObs c) := rfl
+theorem check_run_ok_partial (hS : AllSound) (hR : RefSound) {c : Case} {g : Nat → Fam} (p : Profile)
+    (h : c.Good g) (hpc : c.PurgeCtrOk) (hsh : c.Short) (hone : c.OneSession) :
+    SpecC15.check c (observe p c) = .ok := by
+  have hsteps : (observe p c).steps = List.zipWith (stepObs c) c.ops (runFrom p {} c.ops).1 := rfl
   have hpan : (observe p c).panicked = (runFrom p {} c.ops).2 := rfl
   unfold SpecC15.check
-  rw [hsteps, checkSteps_ok hS p hone c.ops {} {} 0 0 h hpc (by simpa using (show c.ops.length < HALF from hsh)) (inv_empty c g) (sinv_empty c)]
+  rw [hsteps, checkSteps_ok hS hR p hone c.ops {} {} 0 0 h.wf h.attrRef hpc
+    (by simpa using (show c.ops.length < HALF from hsh)) (inv_empty c g) (sinv_empty c g) refRel_empty
+    (attrRefInv_empty c)]
   simp only []
-  rw [hpan, runFrom_no_panic hS p c.ops h {} (inv_empty c g)]
-  rfl
+  rw [hpan, runFrom_no_panic hS p c.ops h.wf {} (inv_empty c g)]
+  simp only [Bool.false_eq_true, if_false]
+  rw [if_neg]
+  intro hne
+  apply hne
+  rw [List.length_zipWith, runFrom_length hS p c.ops h.wf {} (inv_empty c g), Nat.min_self]
 
 /-! ## The states of a run (any number of sessions per peer) -/
 
@@ -812,7 +1088,7 @@ theorem run_at (hS : AllSound) {c : Case} {g : Nat → Fam} (p : Profile) :
   | nil => intro t k done _ _ _ _ _ i tA tB op r _ h2; simp at h2
   | cons o ops ih =>
     intro t k done hwf hpo hk hinv hg i tA tB op r h1 h2 h3
-    obtain ⟨t1, r1, hstep, hrun, hinv1, _, _⟩ := run_step hS p ops (hwf o List.mem_cons_self) hinv
+    obtain ⟨t1, r1, hstep, hrun, hinv1, _⟩ := run_step hS p ops (hwf o List.mem_cons_self) hinv
     have hcf := ctrFacts_step p hinv hinv1 o hstep
     have hlen : k + (ops.length + 1) < HALF := by simpa using hk
     have hg1 := ginv_step (hpo o List.mem_cons_self) (hwf o List.mem_cons_self) (by omega) hinv hcf hg
